@@ -340,7 +340,7 @@ func runC03(c *Ctx) {
 			res := b.Stop()
 			c.procFailures(res, "start")
 		}
-		c.Violation("proxy-start-failed", "the proxy did not start with a valid configuration: "+err.Error(), map[string]any{"err": err.Error()})
+		c.startFailure(err, "c03")
 		return
 	}
 	reps := c.N(1, 12)
